@@ -38,7 +38,7 @@ class ForcePlatformInfo:
         label = BTSString.bread(stream, 256)  # Docs say 32, but it's actually 256
         size = VEC2F.bread(stream)
         position = ForcePlatformVertices.bread(stream)
-        BTSString.bread(stream, 256)  # Undocumented padding
+        i32.skip(stream, 64)  # Undocumented padding (256 bytes), never interpreted
 
         return ForcePlatformInfo(label, size, position)
 
